@@ -15,7 +15,7 @@ def gen_sentences(ctx, name, alphabet, labels, maxn, ntags, rowids, invariants):
         raise vlib.ToolError(f"Gen_Sent: the specification's own round-trip theorem {res['violated']} fails")
     ctx.add_tlc(res, f"Gen_Sent: sentences n<={maxn}, |alphabet|={len(alphabet)}, labels={sorted(labels)}, "
                      f"ntags={ntags}, rows={sorted(rowids)}; theorems {invariants} hold on every one")
-    return vlib.cases_from(res["out"])
+    return vlib.nonempty(vlib.cases_from(res["out"]), "Gen_Sent " + name)
 
 
 def observe(binp, name, sents):
